@@ -594,7 +594,18 @@ def execStmt (W : World Ω) : Nat → Stmt → St Ω → Option (Ctl × St Ω)
             | none => none)
          | _ => none)
       | _ => none
-    | .goS _ => none
+    | .goS e =>
+      -- `go recv.m()`: the interpreter follows ONE goroutine; that another one is started is an event of the world
+      -- (`go:m`), what it then does is the subject of the theorems about `m` itself
+      match e with
+      | .mcall recv m .nil =>
+        (match evalExpr W fuel recv st with
+         | some ([r], st1) =>
+           (match W.mcall r ("go:" ++ m) [] st1.heap st1.w with
+            | some (_, h, w) => some (.next, { st1 with heap := h, w := w })
+            | none => none)
+         | _ => none)
+      | _ => none
     | .send ch v =>
       -- `ch <- v`: a channel operation of the world (`chan:send`); the interpreter follows ONE goroutine, so what other
       -- goroutines do with the channel is the world's business
